@@ -82,6 +82,31 @@ func init() {
 		}
 		return Slice{a: out}
 	})
+	// Summary of the pure pair FormatInt/ParseInt: text known to be the decimal rendering
+	// of a term parses back to that term. Anything else runs the real strconv code.
+	reg("strconv.ParseInt", func(it *Interp, fr *frame, fn *ssa.Function, args []Value) Value {
+		s := asStr(args[0])
+		base, bits := args[1].(*Term), args[2].(*Term)
+		if base.isConst() && base.cv == 10 && bits.isConst() && (bits.cv == 64 || bits.cv == 0) {
+			for _, sp := range s.spans {
+				if sp.lo == 0 && sp.hi == s.Len() && sp.signed {
+					it.modelsUsed["strconv.ParseInt∘FormatInt summary"]++
+					return Tuple{sp.val, Iface{}}
+				}
+			}
+		}
+		return it.callBody(fr, fn, args)
+	})
+	reg("strconv.Atoi", func(it *Interp, fr *frame, fn *ssa.Function, args []Value) Value {
+		s := asStr(args[0])
+		for _, sp := range s.spans {
+			if sp.lo == 0 && sp.hi == s.Len() && sp.signed {
+				it.modelsUsed["strconv.ParseInt∘FormatInt summary"]++
+				return Tuple{sp.val, Iface{}}
+			}
+		}
+		return it.callBody(fr, fn, args)
+	})
 	reg("strconv.Quote", func(it *Interp, fr *frame, fn *ssa.Function, args []Value) Value {
 		return it.quote(asStr(args[0]))
 	})
@@ -334,29 +359,37 @@ func (it *Interp) formatIntNow(x *Term, signed bool) Str {
 	sum := mkInt(0)
 	var cons []*Term
 	for i := 0; i < k; i++ {
-		d := mkVar(fmt.Sprintf("%s_%d", base, i), 64)
+		d := mkVar(fmt.Sprintf("%s_%d", base, i), 8)
 		ds[i] = d
-		cons = append(cons, bvCmp("bvule", d, mkInt(9)))
-		sum = bvBin("bvadd", bvBin("bvmul", sum, mkInt(10)), d)
+		cons = append(cons, bvCmp("bvule", d, mkBV(8, 9)))
+		// same shape as strconv.ParseUint's n*10 + uint64(c-'0') so that the solver sees
+		// syntactically equal terms on a parse of this text
+		sum = bvBin("bvadd", bvBin("bvmul", sum, mkInt(10)), bvZext(d, 64))
 	}
 	if k > 1 {
-		cons = append(cons, bvCmp("bvuge", ds[0], mkInt(1)))
+		cons = append(cons, bvCmp("bvuge", ds[0], mkBV(8, 1)))
 	}
 	cons = append(cons, mkEq(sum, mag))
 	// the digit variables are defined by (not merely constrained with) the value: the
 	// constraint is satisfiable for every mag with k digits, so this is an assume that
 	// never prunes.
-	if !it.ex.replaying() {
-		it.ex.solver.Assert(mkAnd(cons...))
+	// the digit variables are a total function of mag: their defining constraint is
+	// attached to the variables and asserted only in queries that mention one of them
+	it.ex.harvest(mkAnd(cons...))
+	defn := &varDefn{cons: mkAnd(cons...)}
+	for _, d := range ds {
+		d.defn = defn
 	}
 	var out []*Term
 	if neg {
 		out = append(out, mkBV(8, '-'))
 	}
 	for _, d := range ds {
-		out = append(out, bvBin("bvadd", bvExtract(d, 7, 0), mkBV(8, '0')))
+		out = append(out, bvBin("bvadd", d, mkBV(8, '0')))
 	}
-	return strFromBytes(out)
+	res := strFromBytes(out)
+	res.spans = []numSpan{{0, len(out), x64, signed}}
+	return res
 }
 
 func (it *Interp) quote(s Str) Str {
